@@ -33,6 +33,7 @@ CAT = [
     ("entry", "e", "k5", [("p", "v"), ("q", "{v}"), ("r", "s"), ("w", "e"), ("z", "n")]),
     ("string", "e", ""),  # no content at all (accepted by the splitter as an @string block): resolves to the empty text
     ("string", "n", '""'),  # empty content in quotes
+    ("entry", "f", "k6", [("t", '"{a {b} 12" c}"'), ("j", "s"), ("u", "{x {y} \"z\"}"), ("w", "t")]),  # a reference after values whose quotes and braces interleave
     ("garbage", "@string{oops"),  # a definition that breaks off (a failed block): what follows is defined and resolved as ever
 ]
 
